@@ -390,8 +390,9 @@ func runC10(rec *vkit.Recorder, c *c10Case) []vkit.Violation {
 			if !heldBefore {
 				m = nil
 			}
-			if m != nil && m.job == "jgone" {
-				// the proxy has no scrape information for that job: the request is refused, nothing is counted
+			if m != nil && job == "jgone" {
+				// the proxy has no scrape information for the job the request names (the job the target had when the
+				// request was made; an update handled in flight may have moved it since): refused, nothing is counted
 				flags["scrape-of-a-target-whose-job-is-not-configured"] = true
 			} else if m != nil {
 				if !m.synced {
